@@ -103,8 +103,8 @@ std::vector<vfps::impedance_t> vfps::Impedance::readData(std::string fname)
     frequency_t real;
     frequency_t imag;
 
-    while(is.good()) {
-        is >> lineno >> real >> imag;
+    // only complete (line number, real, imaginary) triples are taken
+    while(is >> lineno >> real >> imag) {
         if (lineno != old_lineno) {
             rv.push_back(impedance_t(real,imag));
         }
